@@ -8,7 +8,6 @@ import (
 	"encoding/json"
 	"fmt"
 	"os"
-	"os/exec"
 	"path/filepath"
 	"runtime"
 	"sort"
@@ -162,11 +161,6 @@ func goroutineDump() string {
 	return strings.Join(out, "\n\n")
 }
 
-func copyTree(src, dst string) {
-	_ = os.MkdirAll(dst, 0o755)
-	cmd := exec.Command("cp", "-a", src+"/.", dst+"/")
-	_ = cmd.Run()
-}
 
 func c17Property(t *rapid.T, st *Stats) {
 	tmp := mkTemp("c17")
